@@ -237,6 +237,9 @@ pub fn scrub(msg: &str) -> String {
 }
 
 pub fn err_class(err: &str) -> String {
+    if err.starts_with("VERIFY-REMOVED-TWICE") {
+        return "verifier-needs-file-it-already-unlinked:digest-removed-by-two-transactions".to_string();
+    }
     let err = &scrub(err);
     // SError display is multi-line; keep code-ish words only.
     let flat: String = err
@@ -359,7 +362,11 @@ pub struct Exec<'h> {
     /// Diagnosis aid: the first operation after which some level >= 1 held two files with
     /// overlapping key ranges (which breaks the per-level binary search), and that op's kind.
     pub level_overlap: Option<(usize, &'static str, String)>,
+    /// Full multi-version dumps of SSTs by digest (files are immutable).
+    pub dump_cache: std::collections::HashMap<String, Vec<crate::conserve::Entry>>,
 }
+
+pub const NUM_LEVELS: usize = lsmtk::NUM_LEVELS;
 
 fn drain_forward(c: &mut dyn Cursor) -> Result<Vec<(Vec<u8>, Vec<u8>)>, String> {
     let mut out = Vec::new();
@@ -422,6 +429,7 @@ impl<'h> Exec<'h> {
             c04: crate::books::Books::default(),
             c08: crate::files::FileWatch::default(),
             level_overlap: None,
+            dump_cache: std::collections::HashMap::new(),
         }
     }
 
@@ -456,7 +464,7 @@ impl<'h> Exec<'h> {
     pub fn violate(&mut self, property: &str, class: impl Into<String>, detail: impl Into<String>) {
         let mut class: String = class.into();
         let mut detail: String = detail.into();
-        if property == "C01" || property == "C03" {
+        if property == "C01" || property == "C03" || (property == "C08" && class.starts_with("contents-changed")) {
             if let Some((op, kind, what)) = self.level_overlap.as_ref() {
                 class = format!("misordered-levels-from-{kind}:{class}");
                 detail = format!("{detail} [file order within a level unsound since op {op} ({kind}): {what}]");
@@ -1215,6 +1223,10 @@ impl<'h> Exec<'h> {
                     crate::files::check_verifier_unlinks(self, trace_from);
                 }
                 self.note_store_moved();
+                if self.oracles.c04 {
+                    crate::books::check(self);
+                    crate::books::manifest_verifier_accepts(self);
+                }
                 match r {
                     Ok(()) => Ok(()),
                     Err(e) => {
@@ -1222,7 +1234,20 @@ impl<'h> Exec<'h> {
                             self.probes.hit("verifier_backoff");
                             Ok(())
                         } else {
-                            Err(format!("VERIFY: {e}"))
+                            let msg = format!("{e}");
+                            // Diagnosis: a NotFound on trash/<digest>.sst for a digest that two
+                            // different transactions removed (a compaction re-created a file
+                            // with the digest of one removed earlier).
+                            if msg.contains("NotFound") {
+                                if let Some(pos) = msg.find("/trash/") {
+                                    let hex: String = msg[pos + 7..].chars().take(64).collect();
+                                    let n = self.c04.removals.get(&hex).copied().unwrap_or(0);
+                                    if n >= 2 {
+                                        return Err(format!("VERIFY-REMOVED-TWICE: digest {hex} was removed by {n} transactions; {msg}"));
+                                    }
+                                }
+                            }
+                            Err(format!("VERIFY: {msg}"))
                         }
                     }
                 }
@@ -1293,7 +1318,7 @@ impl<'h> Exec<'h> {
     }
 
     fn property_for_error(op: &Op, err: &str) -> &'static str {
-        if err.starts_with("VERIFY:") {
+        if err.starts_with("VERIFY") {
             return "C04";
         }
         match op {
@@ -1376,6 +1401,11 @@ impl<'h> Exec<'h> {
         }
         if self.oracles.c08 {
             crate::files::check_presence(self);
+            match op {
+                Op::Verify => crate::files::check_contents(self, "verifier-pass"),
+                Op::Reopen => crate::files::check_contents(self, "reopen"),
+                _ => {}
+            }
         }
     }
 
